@@ -33,6 +33,10 @@
                                   gate `ndv_est >= row_count` (C03-F1) takes a non-unique key for unique and drops the other
                                   keys; the same shards answered with that rule left out and merged by the unchanged merge
                                   statement (`neutral_twophase_nogkr`) give the single-node answer.
+    C09-F7 (signature + neutraliser) TopN whose ORDER BY names an INPUT column by its qualified name (`ORDER BY t.a`) while another
+                                  output column carries that bare name as its alias (`t.b AS a`): `plan_topn` maps the key to
+                                  the output column `a`, the merge sorts (and cuts) by the wrong column; the same statement with
+                                  the alias renamed (`neutral_unshadow`) answers like the single-node run.
     C09-F6 (signature + neutraliser) the statement's single-node outcome depends on the storage layout: single-node over
                                   IN-MEMORY tables (`neutral_mem1`) fails / answers exactly like the distributed run, whose
                                   gather and merge stages run over in-memory tables (a C04-class defect, not a split defect).
@@ -277,6 +281,7 @@ def handler : Driver.Handler := fun cj i => do
         let attr :=
           if d.shape == "Gather" && fullOk && hasSubqueryOrCte c.plan then some "C09-F4"
           else if d.shape == "TwoPhase" && mergeOk && groupKeys c.plan ≥ 2 then some "C09-F5"
+          else if d.shape == "TopN" && c.tags.contains "shadow_order" && okLike (neutralOf i "neutral_unshadow" k) t0 then some "C09-F7"
           else if memSame then some "C09-F6" else none
         some (s!"{k} ({d.shape}) and the single-node run disagree: {diffSummary t t0}", attr)
     | _, _ => none
